@@ -195,6 +195,31 @@ theorem wait_ok_iff (prev : Nat) (children : List ChildRead) (versions : List Ve
 end NGF.Reload
 
 namespace NGF.C12
+open NGF.Reload
+
+/-- What must have been observed for `Reload(n)` to return nil. -/
+def Running (o : Oracle) (n : Int) : Prop :=
+  (∃ p, findMainProcess o = .ok p) ∧
+  ∃ prev, o.prevRead = .content prev ∧ o.kill = true ∧
+    ∃ i j, WaitWitness prev o.children o.versions o.budget n i j
+
+theorem reload_res_none_iff (o : Oracle) (n : Int) : (reload o n).res = none ↔ Running o n := by
+  unfold reload Running
+  cases hf : findMainProcess o with
+  | error e => simp
+  | ok p =>
+    cases hp : o.prevRead with
+    | err => simp
+    | content prev =>
+      cases hk : o.kill with
+      | false => simp
+      | true =>
+        simp only [Bool.not_true, Bool.false_eq_true, if_false]
+        rw [wait_ok_iff]
+        constructor
+        · rintro ⟨i, j, h⟩; exact ⟨⟨p, rfl⟩, prev, rfl, by simp, i, j, h⟩
+        · rintro ⟨_, prev', hpe, _, i, j, h⟩
+          cases hpe; exact ⟨i, j, h⟩
 
 /-- sub-list test on characters, for pinning template fragments -/
 def containsSub (s t : List Char) : Bool :=
